@@ -67,5 +67,14 @@ func IsNil(node interface{}) bool {
 		return true
 	}
 
-	return reflect.ValueOf(node).IsNil()
+	// Only these kinds can be nil; reflect panics for anything else (a string,
+	// a number or a struct is never nil).
+	value := reflect.ValueOf(node)
+	switch value.Kind() {
+	case reflect.Chan, reflect.Func, reflect.Interface, reflect.Map,
+		reflect.Ptr, reflect.Slice, reflect.UnsafePointer:
+		return value.IsNil()
+	}
+
+	return false
 }
